@@ -111,6 +111,8 @@ def execCmd : Exec ByteArray := fun stg w =>
     if prog == str "vprobe" then .ok w else
     -- `vfail <id> <code>` touches nothing and exits non-zero
     if prog == str "vfail" then .error .other else
+    -- the command is started in the stage's working directory, which must exist
+    if stg.wd != [Path.dot] && !(match getPath w.ws (Path.comps stg.wd) with | some (.dir _) => true | _ => false) then .error .other else
     let outs := rest.takeWhile (· != str "--")
     let ins := (rest.dropWhile (· != str "--")).drop 1
     -- `vlen …`: like vcmd, but only the lengths of the input files matter
@@ -354,6 +356,12 @@ def applyOp (toks : List String) (w : World ByteArray) : Except Err (World ByteA
   | "run" :: single :: ts => (cmdRun theCfg execCmd (single == "1") (hx ts) w, #[])
   | "push" :: single :: ts => (cmdPush theCfg (single == "1") (hx ts) w, #[])
   | "fetch" :: single :: ts => (cmdFetch theCfg (single == "1") (hx ts) w, #[])
+  | "pull" :: st :: single :: ts =>
+    -- `dud pull`: fetch, then checkout, with the same arguments
+    (match cmdFetch theCfg (single == "1") (hx ts) w with
+     | .error e => .error e
+     | .ok w1 => cmdCheckout theCfg (strat st) (single == "1") (hx ts) w1, #[])
+  | ["rmindex"] => (.ok { w with idx := [] }, #[])
   | ["write", p, c] =>
     let comps := Path.comps (unhex p)
     (match setPath (delPath w.ws comps) comps (.file (parseContent c)) with
